@@ -2,6 +2,7 @@ package main
 
 import (
 	"fmt"
+	"go/constant"
 	"go/token"
 	"go/types"
 	"regexp"
@@ -956,7 +957,18 @@ func c08Registry(c *Ctx) {
 				}
 			})
 		}
-		r.Ob("CHECKER-ARITY", "checker of "+k, t.Pos(f.Pos()), hasLen && hasReject, "a builtin's checker must test len(funcExpr.Param) and be able to reject")
+		detail := ""
+		if !hasLen || !hasReject {
+			// … or in a helper that takes the bounds as arguments: the checker specialised for each argument count
+			// 0..8 must reject at least one of them on every path
+			if rej, acc, ok := checkerArityBySpec(f); ok {
+				detail = fmt.Sprintf(" (specialised per argument count: rejects %v, may accept %v)", rej, acc)
+				if len(rej) > 0 {
+					hasLen, hasReject = true, true
+				}
+			}
+		}
+		r.Ob("CHECKER-ARITY", "checker of "+k, t.Pos(f.Pos()), hasLen && hasReject, "a builtin's checker must test len(funcExpr.Param) and be able to reject"+detail)
 	}
 	r.Floor("CHECKER-ARITY", 23)
 }
@@ -1367,4 +1379,36 @@ func c08CallCheckSpec(cf *ssa.Function, prm *ssa.Parameter, listV *ssa.Function)
 		res.verdict = false
 	}
 	return res
+}
+
+// checkerArityBySpec: the checker evaluated with len(funcExpr.Param) fixed to n = 0..8 (helpers inlined with their
+// constant arguments): the counts for which every outcome is an error, and those for which some outcome is not.
+func checkerArityBySpec(f *ssa.Function) (rejects, accepts []int, ok bool) {
+	if len(f.Params) < 2 {
+		return nil, nil, false
+	}
+	for n := 0; n <= 8; n++ {
+		cfg := &specCfg{MaxLoop: 2, MaxDepth: 3, MaxVisits: 40000, Call: stdErrCall}
+		cfg.Paths = map[string]sval{"len(" + pname(f.Params[1]) + ".Param)": constv(constant.MakeInt64(int64(n)))}
+		var args []sval
+		for _, p := range f.Params {
+			args = append(args, symv(pname(p)))
+		}
+		outs, ab := cfg.run(f, args)
+		if ab != "" || len(outs) == 0 {
+			return nil, nil, false
+		}
+		allErr := true
+		for _, o := range outs {
+			if len(o.Vals) == 0 || errClass(o.Vals[len(o.Vals)-1]) != "error" {
+				allErr = false
+			}
+		}
+		if allErr {
+			rejects = append(rejects, n)
+		} else {
+			accepts = append(accepts, n)
+		}
+	}
+	return rejects, accepts, true
 }
